@@ -227,25 +227,33 @@ def run(ctx):
         raise AnalysisBroken("C06 post.overflow: no increment found in post")
     cvs = [strip(s.expected) for s in incs if s.aop == "cas" and s.expected is not None]
     vdid = {strip(e.kids[0]).did for e in cvs if e is not None and e.k == "UnaryOperator" and e.op == "&" and e.kids}
-    isld2 = lambda n: any(n is l.node for l in lds) or any(is_var_load(d)(n) for d in vdid)
+    isld0 = lambda n: any(n is l.node for l in lds) or any(is_var_load(d)(n) for d in vdid)
+    # locals that only ever hold a copy of the counter value just read (the parameter of an extracted predicate, a renamed temporary)
+    copies = set()
+    for did_, evs_ in f.defs().items():
+        if did_ not in vdid and evs_ and all(k_ in ("init", "assign") and v_ is not None and isld0(v_) for k_, n_, v_ in evs_):
+            copies.add(did_)
+    isld2 = lambda n: isld0(n) or any(is_var_load(d)(n) for d in copies)
     atom = atom_from([(isld2, IMAX)] + [(lambda n, w=w: n is w, 0) for w in wakes])
     hit = [s for s in incs if reach(f, [s.node], atom)]
     # a failed compare-exchange refreshes the expected value: the retry must pass the overflow test again before the next attempt
     retry = None
 
     def ovf_test(b, i):
-        ec = f.edge_cond(b, i)
-        if ec is None:
-            return False
-        leaf, pol = ec
-        if not any(isld2(m) for m in leaf.walk()):
-            return False
-        try:
-            from rules import truth_table
-            tt = truth_table(f, leaf, pol, [isld2], [[-1, 0, 1, IMAX - 1, IMAX]])
-        except Unevaluable:
-            return False
-        return bool(tt) and all(v[0] != IMAX for v in tt)
+        for ec in (f.edge_cond(b, i), f.edge_cond_resolved(b, i)):
+            if ec is None:
+                continue
+            leaf, pol = ec
+            if leaf is None or not any(isld2(m) for m in leaf.walk()):
+                continue
+            try:
+                from rules import truth_table
+                tt = truth_table(f, leaf, pol, [isld2], [[-1, 0, 1, IMAX - 1, IMAX]])
+            except Unevaluable:
+                continue
+            if bool(tt) and all(v[0] != IMAX for v in tt):
+                return True
+        return False
     for s_ in incs:
         if s_.aop == "cas" and not hit:
             w = f.find_path(s_.node, lambda n, s_=s_: n is s_.node, edge_ok=lambda b, i: not ovf_test(b, i))
